@@ -29,8 +29,9 @@ POST = []      # hooks run after all contract files are loaded
 
 class Group:
     """an instantiation unit"""
-    def __init__(s, name, includes, prelude='', profile='S', flags=(), cut=()):
+    def __init__(s, name, includes, prelude='', profile='S', flags=(), cut=(), noinline=(), libs=()):
         s.name = name; s.includes = includes; s.prelude = prelude; s.profile = profile; s.flags = list(flags); s.cut = list(cut)
+        s.noinline = list(noinline); s.libs = list(libs)
         GROUPS[name] = s
 
 class Stub:
@@ -43,7 +44,7 @@ class Stub:
 class Check:
     def __init__(s, id, props, group, params, wrapper, fn=None, cxx=None, ghosts=(), requires=(), lemmas=(), ensures=(),
                  assigns=None, mode='exact', setup='', tier='quick', fn_re=None, replace=(), loops=None, decl=None,
-                 post='', misuse=False, covers=(), stubs=(), solvers=('cadical', 'minisat'), cbmc_flags=(), timeout=600, note='', unwind=None, ret_cxx=None, native=True, objbits=None, config='debug'):
+                 post='', misuse=False, covers=(), stubs=(), reject_ok=False, solvers=('cadical', 'minisat'), cbmc_flags=(), timeout=600, note='', unwind=None, ret_cxx=None, native=True, objbits=None, config='debug'):
         assert id not in CHECKS, id
         s.id = id; s.props = list(props); s.group = group; s.fn = fn; s.fn_re = fn_re; s.params = list(params)
         s.wrapper = wrapper            # (ret_cxx_type, 'cxx param list', 'cxx body')
@@ -54,7 +55,7 @@ class Check:
         s.assigns = assigns            # None = no assigns clause, else list of targets
         s.mode = mode; s.setup = setup; s.tier = tier; s.replace = list(replace); s.loops = loops or {}
         s.decl = decl or {}; s.post = post; s.misuse = misuse; s.cbmc_flags = list(cbmc_flags); s.timeout = timeout
-        s.covers = list(covers); s.stubs = list(stubs); s.solvers = list(solvers); s.note = note; s.unwind = unwind; s.native = native; s.objbits = objbits; s.config = config
+        s.covers = list(covers); s.stubs = list(stubs); s.reject_ok = reject_ok; s.solvers = list(solvers); s.note = note; s.unwind = unwind; s.native = native; s.objbits = objbits; s.config = config
         CHECKS[id] = s
 
 # ------------------------------------------------------------------ helpers
@@ -136,19 +137,30 @@ class Inst:
         src = os.path.join(s.dir, 'inst.cpp'); open(src, 'w').write(s.source())
         ll = os.path.join(s.dir, 'inst.ll')
         common = ['-std=c++17', '-I' + INC, '-fno-access-control', '-fno-discard-value-names', '-w'] + s.group.flags + s.cfgflags()
-        if s.group.profile == 'S':
-            cmd = [CLANG] + common + ['-O0', '-Xclang', '-disable-O0-optnone', '-S', '-emit-llvm', '-Xclang', '-fdump-record-layouts', src, '-o', ll]
-        else:
-            cmd = [CLANG] + common + ['-O1', '-fno-vectorize', '-fno-slp-vectorize', '-fno-unroll-loops', '-S', '-emit-llvm', '-Xclang', '-fdump-record-layouts', src, '-o', ll]
+        cmd = [CLANG] + common + ['-O0', '-Xclang', '-disable-O0-optnone', '-S', '-emit-llvm', '-Xclang', '-fdump-record-layouts', src, '-o', ll]
         rc, out, err, dt = run(cmd, timeout=900)
         if rc != 0 or not os.path.exists(ll):
             raise Broken('instantiation unit %s does not compile (clang):\n%s' % (s.group.name, (err or out)[-3000:]))
         s.lay = layouts.Layouts(out)
+        ll2 = os.path.join(s.dir, 'inst.s.ll')
         if s.group.profile == 'S':
-            ll2 = os.path.join(s.dir, 'inst.s.ll')
             rc, out, err, _ = run([OPT, '-S', '-passes=sroa,mem2reg,simplifycfg', ll, '-o', ll2], timeout=600)
-            if rc != 0: raise Broken('opt failed: ' + err[-2000:])
-            ll = ll2
+        else:
+            # profile O: the O1 pipeline of LLVM on the same IR; functions matching group.noinline (string/exception plumbing) are kept out of line
+            if True:
+                rx = [re.compile(x) for x in s.group.noinline]; lines = open(ll).read().split('\n')
+                for i, ln in enumerate(lines):
+                    if ln.startswith('attributes #'): lines[i] = ln.replace(' noinline', '')     # clang -O0 marks every function noinline
+                for i, ln in enumerate(lines):
+                    if ln.startswith('define '):
+                        mm = re.search(r'@("[^"]*"|[-a-zA-Z$._0-9]+)\(', ln)
+                        if mm and any(r.search(mm.group(1)) for r in rx):
+                            m2 = list(re.finditer(r' #\d+', ln))
+                            if m2: lines[i] = ln[:m2[-1].start()] + ' noinline' + ln[m2[-1].start():]
+                open(ll, 'w').write('\n'.join(lines))
+            rc, out, err, _ = run([OPT, '-S', '-passes=default<O1>', ll, '-o', ll2], timeout=900)
+        if rc != 0: raise Broken('opt failed: ' + err[-2000:])
+        ll = ll2
         s.module = ll2c.parse_module(open(ll).read())
         names = list(s.module.funcs)
         dem = demangle([n[1:].strip('"') for n in names])
@@ -266,6 +278,8 @@ static inline I64 NARROW_SREM(I64 a, I64 b){ __CPROVER_assume(-(1LL<<(ARITH_NARR
 #endif
 #define IMPLIES(a,b) (!(a) || (b))
 #define BIG (1LL<<40)
+#define SMALL (1LL<<30)
+#define MAX1(x) ((x) > 1 ? (x) : 1)
 #define INR(x) (-BIG < (x) && (x) < BIG)
 #define INOFF(x) (-(1LL<<48) < (x) && (x) < (1LL<<48))
 '''
@@ -306,6 +320,7 @@ class Runner:
             if len(hits) > 1 and not st.only_first: raise Broken('check %s: stub pattern %s matches %d functions: %s' % (check.id, st.fn_re, len(hits), [inst.dem[h] for h in hits][:4]))
             stubfns.append((st, hits[0]))
         gen = ll2c.Gen(m, arith, cut=GROUPS[check.group].cut + ['^' + re.escape(n) + '$' for _, n in stubfns])
+        gen.no_body = {n for _, n in stubfns}
         b = Binder(inst, check, gen, f)
         stub_ghosts = []       # (ctype, name, init) ; filled by stub_code
         stub_types = []
@@ -360,7 +375,7 @@ class Runner:
             stub_targets = []
             for st, n in stubfns:
                 stub_targets += ([st.count] if st.count else []) + [r_[0] for r_ in st.record]
-            ctext.append('__CPROVER_assigns(%s)' % ', '.join([b.for_contract(a) for a in check.assigns] + stub_targets))
+            ctext.append('__CPROVER_assigns(%s)' % ', '.join([b.for_contract(a) for a in check.assigns] + stub_targets + ['EXC']))
         ens_lines = []
         for label, e in check.ensures:
             ctext.append('/*ENS:%s*/ __CPROVER_ensures(%s)' % (label, b.for_contract(e)))
@@ -597,20 +612,22 @@ class Runner:
 Fn_t = ll2c.Fn
 
 # ------------------------------------------------------------------ trace handling
-def json_value_to_c(v):
-    """CBMC json value -> C initialiser text (pointers -> NATIVE_PTR placeholder)"""
+_ptr_slots = {}
+def json_value_to_c(v, path=''):
+    """CBMC json value -> C initialiser text.  Pointers: CBMC prints no usable value for non-deterministic pointers, so every
+    pointer leaf gets its own address inside NATIVE_BUF (distinct per variable/field; equal only if CBMC prints the same object+offset)"""
     if v is None: return None
     nm = v.get('name')
     if nm == 'struct':
         parts = []
         for mbr in v.get('members', []):
             if mbr.get('name', '').startswith('$pad'): continue
-            x = json_value_to_c(mbr.get('value'))
+            x = json_value_to_c(mbr.get('value'), path + '.' + mbr['name'])
             if x is None: x = '0'
             parts.append('.%s = %s' % (mbr['name'], x))
         return '{' + ', '.join(parts) + '}' if parts else '{0}'
     if nm == 'array':
-        return '{' + ', '.join((json_value_to_c(e.get('value')) or '0') for e in v.get('elements', [])) + '}'
+        return '{' + ', '.join((json_value_to_c(e.get('value'), path + '[%d]' % i) or '0') for i, e in enumerate(v.get('elements', []))) + '}'
     if nm == 'integer':
         d = re.sub(r'[uUlL]+$', '', str(v.get('data', '0')))
         if d.upper() in ('TRUE', 'FALSE'): return '1' if d.upper() == 'TRUE' else '0'
@@ -624,10 +641,11 @@ def json_value_to_c(v):
         return d if re.fullmatch(r'[-+0-9.eE]+', d) else '0'
     if nm == 'pointer':
         d = v.get('data', '')
-        if 'NULL' in d and '+' not in d: return '0'
-        h = int(hashlib.md5(d.encode()).hexdigest()[:4], 16) % 1000
-        return '(void*)(NATIVE_BUF + %d)' % (4096 + 512*h)
-    if nm == 'union' or nm == 'unknown': return None
+        mm = re.search(r'NULL\)\)? *\+ *(\d+)', d or '')
+        if d and 'NULL' in d and not mm and path.count('.') == 0 and False: return '0'
+        key = d if (d and 'NULL' not in d and 'INVALID' not in d.upper()) else ('leaf:' + path)
+        if key not in _ptr_slots: _ptr_slots[key] = len(_ptr_slots)
+        return '(void*)(NATIVE_BUF + %d)' % (8192 + 4096*(_ptr_slots[key] % 240))
     return None
 
 def extract_inputs(trace, stop_at=None):
@@ -643,7 +661,7 @@ def extract_inputs(trace, stop_at=None):
         loc = st.get('sourceLocation', {}) or {}
         if loc.get('function') != 'harness': continue
         if not re.fullmatch(r'[A-Za-z_]\w*', lhs) or lhs.startswith('__'): continue
-        c = json_value_to_c(st.get('value'))
+        c = json_value_to_c(st.get('value'), lhs)
         if c is not None: vals[lhs] = c
     return vals
 
